@@ -290,6 +290,40 @@ def ee7%(u)s():
 print(ee3%(u)s(), ee4%(u)s(7, 3), ee7%(u)s(), len(ee6%(u)s))""" % {"u": u, "uni": uni}
 
 
+def _eq_tuples(u, variant):
+    a = {"a": ("0", "0.0", "1", "0", "(1, 2)"), "b": ("False", "-0.0", "True", "0.0", "(True, 2)")}[variant]
+    return ("def et%s_1(p=%s, q=None):\n    return p, q\ndef et%s_2(p=%s, q=1.5):\n    return p, q\n"
+            "def et%s_3(p=%s):\n    return p\net%s_4 = (%s, None, 'x')\ndef et%s_5(p=%s, q=%s):\n    return p in (%s, 7)\nprint(et%s_1())"
+            % (u, a[0], u, a[1], u, a[2], u, a[3], u, a[4], a[0], a[0], u))
+
+
+@template(tags=("equal_tuples",))
+def t_eq_tuples_a(rng, lvl, u):
+    """Constant tuples that compare equal to those of t_eq_tuples_b but are other constants: (0, None) / (False, None),
+    (0.0, 1.5) / (-0.0, 1.5), (1,) / (True,).  Anything remembered by *equality* between two listings mixes them up."""
+    return _eq_tuples(u, "a")
+
+
+@template(tags=("equal_tuples",))
+def t_eq_tuples_b(rng, lvl, u):
+    return _eq_tuples(u, "b")
+
+
+@template(tags=("frozenset", "iteration_order"))
+def t_set_iter_order(rng, lvl, u):
+    """Iteration over frozenset constants whose int members collide in the hash table: the order a program observes depends on
+    the order in which the members were inserted, i.e. on the order they have in the file."""
+    sets = ["{32, 64, 0}", "{8, 16, 24, 0, 40}", "{1024, 0, 2048, 8, 4096}", "{64, 32, 96, 0}", "{-1, -2, 30, 62}",
+            "{%s}" % ", ".join(str(x) for x in rng.sample(range(0, 512, 8), 6))]
+    out = []
+    for i, st in enumerate(sets):
+        out.append("def so%s_%d():\n    r = []\n    for x in %s:\n        r.append(x)\n    return r" % (u, i, st))
+        out.append("so%s_v%d = [y for y in %s]" % (u, i, st))
+    out.append("print(%s)" % ", ".join("so%s_%d()" % (u, i) for i in range(len(sets))))
+    out.append("print(3 in {32, 64, 0, 3}, 5 in {32, 64, 0, 3})")
+    return "\n".join(out)
+
+
 @template(tags=("text", "new_unicode"), minlevel=(3, 6), py2=False)
 def t_new_unicode(rng, lvl, u):
     """Text constants with code points assigned in Unicode 13, 14, 15 and 15.1: whether str.__repr__ shows them or escapes
@@ -960,7 +994,7 @@ print zops%(u)s(5, 3)[:3], zl%(u)s(1)
 """ % {"u": u}
 
 
-NO_WRAP = {"t_new_unicode", "t_ext_jumps", "t_opcode_zoo", "t_opcode_zoo2", "t_py2_raise", "t_ext_edges", "t_shared_frozenset", "t_shared_big_tuple", "t_many_names", "t_misc", "t_import", "t_pep695", "t_line_gaps"}
+NO_WRAP = {"t_eq_tuples_a", "t_eq_tuples_b", "t_new_unicode", "t_ext_jumps", "t_opcode_zoo", "t_opcode_zoo2", "t_py2_raise", "t_ext_edges", "t_shared_frozenset", "t_shared_big_tuple", "t_many_names", "t_misc", "t_import", "t_pep695", "t_line_gaps"}
 NO_CLASS_WRAP = NO_WRAP | {"t_long_loop", "t_class3", "t_closure", "t_shared", "t_class2", "t_async", "t_control", "t_deep",
                            "t_backward_lines", "t_long_columns", "t_py2_long", "t_ints", "t_floats", "t_complex",
                            "t_strings", "t_bytes", "t_comp", "t_misc3", "t_try_nest", "t_match", "t_except_star",
